@@ -35,7 +35,8 @@ ASSUMPTIONS = [
     "metamorphic variants are run on a fresh gate with the same rules and no rate limit",
 ]
 MIN_NONTRIVIAL_FRACTION = 0.3
-EXHAUSTIVE_NOTE = {"quick": "every built-in signature/pattern instance (22 membrane + 18 innate) x 3 renderings x every threshold (4 / 5): 534 cases, complete for that table",
+RULE += ' Added after the seeded rounds: Signature pools may contain case twins (two patterns equal up to letter case, with different levels, learnt / forgotten separately); clock gaps up to a day.'
+EXHAUSTIVE_NOTE = {"quick": "every built-in signature/pattern instance (22 membrane + 18 innate) x 4 renderings (plain, upper-cased, embedded, embedded after 300 characters) x every threshold (4 / 5): 680 cases, complete for that table; relaxation table: 5 literal rules x 3 thresholds x 4 ways of relaxing a learnt rule = 60 histories",
                    "thorough": "same table, complete"}
 
 BENIGN = ["hello", "please", "summarise", "the", "report", "for", "monday", "thanks", "42", "ok"]
@@ -97,7 +98,11 @@ def _text(draw, pats, builtin):
         else:
             parts.append(draw(st.text(max_size=8)))
     sep = draw(st.sampled_from(SEPS))
-    return sep.join(parts)
+    text = sep.join(parts)
+    if draw(st.integers(0, 5)) == 0:
+        # the interesting part far from the start of the input (scanners that look at a prefix / a window only)
+        text = " ".join(draw(st.lists(st.sampled_from(BENIGN), min_size=12, max_size=60))) + sep + text
+    return text
 
 
 TWIN = {r"(foo|bar)\s+baz": r"(foo|bar)\S+baz", r"pw[0-9]{1,3}": r"PW[0-9]{1,3}", r"k[aeiou]+t": r"K[AEIOU]+T", r"tok_.*_end": r"TOK_.*_END",
@@ -135,14 +140,38 @@ def _membrane_case(draw):
             ops.append(["learn", draw(st.sampled_from(pool)), draw(st.integers(1, 3))])
         elif k == 8:
             ops.append(["forget", draw(st.sampled_from(pool))])
+            if draw(st.booleans()):
+                ops.append(["refilter", draw(st.integers(0, 5))])       # "keeps blocking an input it has blocked before even after rules are relaxed"
         elif k == 9:
             ops.append(["import", [[draw(st.sampled_from(pool)), draw(st.integers(1, 3))] for _ in range(draw(st.integers(1, 2)))]])
         elif k == 10:
             ops.append(["add_sig", draw(st.sampled_from(pool)), draw(st.integers(1, 3))])
         elif k == 11:
             ops.append(["threshold", draw(st.integers(0, 3))])
+            if draw(st.booleans()):
+                ops.append(["refilter", draw(st.integers(0, 5))])
         else:
-            ops.append(["adv", draw(st.sampled_from([1, 30, 59, 60, 61]))])
+            ops.append(["adv", draw(st.sampled_from([1, 30, 59, 60, 61, 61, 0.5, 3600, 86400 + 5, 86400 + 59]))])
+    if draw(st.integers(0, 5)) == 0:
+        # relaxation scenario: an input is blocked by a learnt rule, the rule is relaxed (forgotten / re-learnt weaker / threshold raised), the same input returns
+        pat = draw(st.sampled_from(pool))
+        inst = draw(st.from_regex(re.compile(pat[1]), fullmatch=True))[:200] if pat[0] else pat[1]
+        text = draw(st.sampled_from(BENIGN)) + " " + _swap(inst, draw(st.integers(0, 3))) + " " + draw(st.sampled_from(BENIGN))
+        relax = draw(st.sampled_from([[["forget", pat]], [["threshold", 3]], [["learn", pat, 1]], [["forget", pat], ["threshold", 3]], [["import", [[pat, 1]]]]]))
+        ops = ops[:draw(st.integers(0, 3))] + [["learn", pat, draw(st.integers(2, 3))], ["filter", text]] + relax + [["refilter", 0], ["filter", text]]
+    elif draw(st.integers(0, 6)) == 0:
+        # twin scenario: two rules whose pattern texts are equal up to letter case carry different levels and are learnt / imported / forgotten separately
+        pat = draw(st.sampled_from(pool))
+        tw = _twin(draw, pat)
+        hi, lo = draw(st.integers(2, 3)), draw(st.integers(0, 1))
+        first, second = draw(st.sampled_from([((pat, hi), (tw, lo)), ((tw, lo), (pat, hi))]))
+        how = draw(st.sampled_from(["learn", "import"]))
+        inst = draw(st.from_regex(re.compile(pat[1]), fullmatch=True))[:200] if pat[0] else pat[1]
+        text = draw(st.sampled_from(BENIGN)) + " " + inst
+        steps = [["learn", first[0], first[1]], (["learn", second[0], second[1]] if how == "learn" else ["import", [[second[0], second[1]]]]), ["filter", text]]
+        if draw(st.booleans()):
+            steps += [["forget", tw], ["filter", text + " ok"]]
+        ops = ops[:draw(st.integers(0, 2))] + steps + ops[:2]
     return {"kind": "membrane", "threshold": draw(st.sampled_from([0, 1, 2, 2, 2, 3])), "adaptive": draw(st.sampled_from([True, True, False])),
             "rate": draw(st.sampled_from([None, None, 0, 1, 2, 3, 5])), "custom": custom, "ops": ops}
 
@@ -165,7 +194,7 @@ def _innate_case(draw):
         elif k == 8:
             ops.append(["reset"])
         else:
-            ops.append(["adv", draw(st.sampled_from([1, 14, 16]))])
+            ops.append(["adv", draw(st.sampled_from([1, 14, 16, 16, 60, 24 * 60 + 2]))])
     return {"kind": "innate", "threshold": draw(st.integers(1, 5)), "validators": vals, "custom": custom, "ops": ops}
 
 
@@ -176,12 +205,18 @@ def strategy(tier):
 
 def enumerate_cases(tier):
     mem, inn = _builtin_instances()
+    for lit in LIT:
+        for thr in (1, 2, 3):
+            for relax in ([["forget", [False, lit]]], [["threshold", 3]], [["learn", [False, lit], 1]], [["import", [[[False, lit], 1]]]]):
+                text = "please " + lit + " ok"
+                yield {"kind": "membrane", "threshold": thr, "adaptive": True, "rate": None, "custom": [],
+                       "ops": [["learn", [False, lit], 3], ["filter", text]] + relax + [["refilter", 0], ["filter", text.upper()]]}
     for inst in mem:
-        for text in (inst, _swap(inst, 1), "hello please " + inst + " . thanks"):
+        for text in (inst, _swap(inst, 1), "hello please " + inst + " . thanks", "the report for monday please summarise thanks ok " * 6 + inst + " ok"):
             for thr in range(4):
                 yield {"kind": "membrane", "threshold": thr, "adaptive": True, "rate": None, "custom": [], "ops": [["filter", text]]}
     for inst in inn:
-        for text in (inst, _swap(inst, 1), "hello please " + inst + " . thanks"):
+        for text in (inst, _swap(inst, 1), "hello please " + inst + " . thanks", "the report for monday please summarise thanks ok " * 6 + inst + " ok"):
             for thr in range(1, 6):
                 yield {"kind": "innate", "threshold": thr, "validators": [], "custom": [], "ops": [["check", text]]}
 
@@ -219,6 +254,7 @@ def _variants(text):
     yield "case-upper", _swap(text, 1)
     yield "embedded", "hello please " + text + " . thanks for the report"
     yield "embedded-nl", "monday\n" + text + "\nok"
+    yield "embedded-deep", "the report for monday please summarise thanks ok " * 6 + text + " . thanks"
 
 
 def _membrane(case, out, clock, mod):
@@ -239,6 +275,7 @@ def _membrane(case, out, clock, mod):
     active_fixed = builtin + [(p, l) for p, l in case["custom"]]
     learned = {}              # pattern text -> (pat, level)
     scan_blocked = set()
+    blocked_order = []        # the same inputs in the order they were first blocked (refilter picks from these when there are any)
     admitted = []
     inputs = []
     out.label("membrane")
@@ -281,7 +318,8 @@ def _membrane(case, out, clock, mod):
             if not inputs:
                 out.skipped += 1
                 continue
-            text = inputs[op[1] % len(inputs)]
+            pool_ = blocked_order if (blocked_order and op[1] % 2 == 0) else inputs      # even k: an input that was blocked by a signature before
+            text = pool_[(op[1] // 2) % len(pool_)]
         elif name == "filter":
             text = op[1]
         else:
@@ -339,6 +377,8 @@ def _membrane(case, out, clock, mod):
                 out.fail("scan:threat-level-not-max", "threat level %s, max over matched signatures is %d" % (r.threat_level.name, want), d)
                 return
             if not r.allowed and r.matched_signatures:
+                if text not in scan_blocked:
+                    blocked_order.append(text)
                 scan_blocked.add(text)
                 # metamorphic: stays blocked on a fresh gate with the same rules
                 rules = [mk_sig(p, l) for p, l in active() if (p, l) not in builtin]
